@@ -44,6 +44,7 @@ func TestAcceptor(t *testing.T) {
 		{"re-used id started", protoTransport, []ev{c(kInit, "", "", 0), s("connection_ack", "", 0), c(kSubscribe, "1", subQ, 1), x("xexec", "1", "", 1), s("error", "1", 1), c(kSubscribe, "1", subQ, 2), x("xexec", "1", "", 2), s("next", "1", 2), s("complete", "1", 2)}, ""},
 		{"re-used id closed 4409", protoTransport, []ev{c(kInit, "", "", 0), s("connection_ack", "", 0), c(kSubscribe, "1", subQ, 1), x("xexec", "1", "", 1), s("error", "1", 1), c(kSubscribe, "1", subQ, 2), ev{K: "close", Code: 4409, Msg: 2}}, clReuse},
 		{"re-used id not started legacy", protoLegacy, []ev{c(kSubscribe, "1", subQ, 0), x("xexec", "1", "", 0), s("error", "1", 0), c(kSubscribe, "1", subQ, 1), s("error", "1", 1)}, clReuse},
+		{"accepted but never executed", protoTransport, []ev{c(kInit, "", "", 0), s("connection_ack", "", 0), c(kSubscribe, "1", subQ, 1), x("xget", "1", "", 1)}, clTerminal},
 		{"legacy extra ack", protoLegacy, []ev{c(kInit, "", "", 0), s("connection_ack", "", 0), s("connection_ack", "", 0)}, clAck},
 	}
 	for _, tc := range cases {
